@@ -411,9 +411,20 @@ def bind_args(h, skip, call):
             defaults[p.arg] = d
     if any(isinstance(x, ast.Starred) for x in call.args) or any(k.arg is None for k in call.keywords):
         return None
+    if len(call.args) > len([p for p in a.posonlyargs + a.args][skip:]):
+        return None
     b = dict(zip(params, call.args))
+    extra = []
     for k in call.keywords:
-        b[k.arg] = k.value
+        if k.arg in params and k.arg not in b:
+            b[k.arg] = k.value
+        elif a.kwarg is not None and k.arg not in params:
+            extra.append(k)
+        else:
+            return None
+    if a.kwarg is not None:
+        # **name collects the remaining keywords: bound to a display with constant keys (call order)
+        b[a.kwarg.arg] = ast.Dict(keys=[ast.Constant(value=k.arg) for k in extra], values=[k.value for k in extra])
     for p in params:
         if p not in b:
             if p in defaults:
